@@ -13,5 +13,5 @@ git -C /repo worktree add -q --detach $wt HEAD || exit 2
 cd /verif && VERIF_REPO=$wt ./check $prop --tier $tier; rc=$?
 echo "seeded=$id property=$prop tier=$tier exit=$rc"
 git -C /repo worktree remove --force $wt
-rm -rf /verif/.build/alt-tmp_seeded_wt_$id
+rm -rf /verif/.build/alt-tmp_seeded_wt_${id//-/_}
 exit $rc
